@@ -248,6 +248,7 @@ func c16Options(w int64) *Options {
 	o := DefaultOptions()
 	o.MinBlockDuration = 100
 	o.MaxBlockDuration = 900
+	o.MaxBlockChunkSegmentSize = 64 << 10 // segment files are pre-allocated to this size (default 512 MiB, real memory on tmpfs)
 	o.WALSegmentSize = 2 * 32 * 1024
 	o.StripeSize = 8
 	o.NoLockfile = true
